@@ -115,7 +115,9 @@ def graphql_case(draw):
     for c in configs:
         c["user_scalars"] = draw(st.sampled_from(["a", "a", "b"]))
     # lookups `schema[<root type>][<field>]` share a cache: the order in which the roots are asked matters
-    return {"sdl": draw(sdl()), "via": draw(st.sampled_from(["sdl", "json"])), "configs": configs, "filter": flt, "draws": 6, "lookup_order": draw(st.sampled_from(["none", "query-first", "mutation-first", "after-iteration"]))}
+    return {"sdl": draw(sdl()), "via": draw(st.sampled_from(["sdl", "json"])), "configs": configs, "filter": flt, "draws": 6, "lookup_order": draw(st.sampled_from(["none", "query-first", "mutation-first", "after-iteration"])),
+            # how each generation setting reaches the strategy: as an argument, or as the configuration of a filtered copy of a schema that was already used
+            "config_route": draw(st.sampled_from(["argument", "argument", "copy"]))}
 
 
 def scalar_ok(name: str, node) -> bool:
@@ -189,6 +191,7 @@ def check_graphql(ctx: Ctx, inp) -> None:
         intro = graphql.execute_sync(gs, graphql.parse(graphql.get_introspection_query())).data
         schema = schemathesis.graphql.from_dict(json.loads(json.dumps(intro)))
     schema = schema.configure(base_url="http://127.0.0.1:1/graphql")
+    original = schema
     flt = inp["filter"]
     roots = [(t.name, f) for t in (gs.query_type, gs.mutation_type) if t for f in t.fields]
     labels = [f"{t}.{f}" for t, f in roots]
@@ -235,6 +238,12 @@ def check_graphql(ctx: Ctx, inp) -> None:
     if (stat.selected, stat.total) != (len(expected), len(roots)):
         ctx.disagree("statistic-differs", f"statistic {stat.selected} selected / {stat.total} total, expected {len(expected)} / {len(roots)}", input=inp)
     type_map = gs.type_map
+    route = inp.get("config_route", "argument")
+    copies: dict = {}
+    if route == "copy":
+        # the loaded schema has been used (its operations were looked up) before copies of it get their own settings
+        for t, f in roots:
+            original[t][f]
     for op in ops:
         root, fname = op.label.split(".")
         fdef = type_map[root].fields[fname]
@@ -243,7 +252,16 @@ def check_graphql(ctx: Ctx, inp) -> None:
         for position, c in enumerate(inp["configs"]):
             register_user_scalars(c.get("user_scalars", "a"))
             cfg = GenerationConfig(graphql_allow_null=c["graphql_allow_null"], allow_x00=c["allow_x00"], codec=c["codec"])
-            cases, outcome = c01.draw_cases(op, GenerationMode.POSITIVE, cfg, inp.get("draws", 6), derive_seed("c20", h(inp), op.label, position))
+            if route == "copy":
+                if position not in copies:
+                    copies[position] = (getattr(original, flt[0])(**{flt[1]: flt[2]}) if flt else original.exclude(name="no.such")).configure(generation=cfg)
+                op_here, cfg_arg = copies[position][root][fname], None
+                if op_here.label != op.label:
+                    ctx.disagree("lookup:another-operation-returned", f"copy[{root!r}][{fname!r}] returned {op_here.label}", input=inp)
+                    continue
+            else:
+                op_here, cfg_arg = op, cfg
+            cases, outcome = c01.draw_cases(op_here, GenerationMode.POSITIVE, cfg_arg, inp.get("draws", 6), derive_seed("c20", h(inp), op.label, position))
             if outcome != "ok" and not cases:
                 if outcome.startswith(("healthcheck", "timeout")):
                     ctx.inconclusive_case("no case drawn (health check / budget)")
@@ -252,7 +270,7 @@ def check_graphql(ctx: Ctx, inp) -> None:
                     ctx.disagree("generation-failed:" + outcome.split(":")[0] + (":" + outcome.split(":")[1] if outcome.startswith("error:") else ""), f"{op.label}: {outcome}", input=inp)
                 continue
             for case in cases:
-                ctx.case(nontrivial=[h(text), op.label, c, case.body] if nontrivial else None, classes=["case", f"null={'on' if c['graphql_allow_null'] else 'off'}", f"x00={'on' if c['allow_x00'] else 'off'}", f"codec={c['codec']}", f"config-position={position}"], sample={"sdl": text, "operation": op.label, "config": c, "body": case.body})
+                ctx.case(nontrivial=[h(text), op.label, c, case.body] if nontrivial else None, classes=["case", f"null={'on' if c['graphql_allow_null'] else 'off'}", f"x00={'on' if c['allow_x00'] else 'off'}", f"codec={c['codec']}", f"config-position={position}", f"config-route={route}"], sample={"sdl": text, "operation": op.label, "config": c, "body": case.body})
                 try:
                     doc = graphql.parse(case.body)
                 except Exception as exc:  # noqa: BLE001
